@@ -133,22 +133,28 @@ fn filename_comparator(file1: &PathBuf, file2: &PathBuf) -> Ordering {
     let name2 = file2.file_name().unwrap().to_str().unwrap();
     let a1 = name1.split('.').collect::<Vec<&str>>();
     let a2 = name2.split('.').collect::<Vec<&str>>();
-    let mut date_str1 = a1[2];
-    let mut date_str2 = a2[2];
+    let mut date_idx = 2;
 
     // in case of file name contains pid, skip it, like Sentinel-Admin-metrics.log.pid22568.2018-12-24
     if a1[2].starts_with(FILE_PID_PREFIX) {
-        date_str1 = a1[3];
-        date_str2 = a2[3];
+        date_idx = 3;
     }
+    let date_str1 = a1[date_idx];
+    let date_str2 = a2[date_idx];
 
     // compare date first
     if date_str1 != date_str2 {
         return date_str1.cmp(date_str2);
     }
 
-    // same date, compare the file number
-    name1.cmp(name2)
+    // same date, compare the file number numerically ("...log.2018-12-24" is number 0):
+    // as strings ".10" would sort before ".9"
+    let number = |a: &Vec<&str>| -> u64 {
+        a.get(date_idx + 1)
+            .and_then(|n| n.parse::<u64>().ok())
+            .unwrap_or(0)
+    };
+    number(&a1).cmp(&number(&a2)).then_with(|| name1.cmp(name2))
 }
 
 #[cfg(test)]
